@@ -1,9 +1,9 @@
 CONSTANTS
-  Dev = {}
+  Dev = {"FirstPatternOnly"}
   AstOf <- MCAstOf
   FilesOf <- MCFilesOf
-  Tier = "quick"
+  Tier = "dev"
 INIT MCInit
 NEXT Next
-INVARIANTS Conforms NoCrash TypeOK
+INVARIANTS Conforms NoCrash
 CHECK_DEADLOCK FALSE
